@@ -19,9 +19,14 @@ Matching(ids, p) == {i \in DOMAIN ids : StartsWith(ids[i], p)}
 
 Errors == {"noid", "multiple", "other"}
 
+\* r.intr (optional field): the listing was interrupted (backend error / cancelled context) after r.intr
+\* delivered entries -- the set of files is then unknown, the only acceptable outcome is an error.
+Interrupted(r) == "intr" \in DOMAIN r
+
 RecOK(r) ==
   LET M == Matching(r.ids, r.prefix) IN
-  IF Cardinality(M) = 1
+  IF Interrupted(r) THEN r.err \in Errors /\ r.res = ""
+  ELSE IF Cardinality(M) = 1
   THEN r.err = "none" /\ r.res = r.ids[CHOOSE i \in M : TRUE]
   ELSE r.err \in Errors /\ r.res = ""
 =============================================================================
